@@ -485,14 +485,32 @@ func c16JudgePair(c *Check, rule string, pk *packages.Package, key string, pos t
 	pe.eval = func(e ast.Expr, env map[string]absVal) absVal {
 		return c16Evaluator(c.P, info)(e, envLookup(info, trk, env))
 	}
-	type res struct{ c, e absVal }
+	type res struct {
+		c, e absVal
+		w    string
+	}
 	seen := map[res]bool{}
-	bad := ""
+	badIn := map[string]string{} // world -> first violation
+	worlds := map[string]bool{}
 	n := 0
 	// parameters start as symbolic values
 	init := map[string]absVal{}
 	for o := range tracked {
 		init[o.Name()] = absVal{K: absSym, Sym: "param:" + o.Name(), Root: o.Name()}
+	}
+	// the "world" of a path: the constant case labels it entered a switch through (`reject 450` and `reject 450 4.2.1`
+	// are different inputs: a finding recorded for the one-argument form must not hide a violation of the two-argument form)
+	worldOf := func(dec []decision) string {
+		var w []string
+		for _, d := range dec {
+			if d.Succ != 0 || d.Cond == nil {
+				continue
+			}
+			if tv, ok := info.Types[d.Cond]; ok && tv.Value != nil {
+				w = append(w, tv.Value.ExactString())
+			}
+		}
+		return strings.Join(w, ",")
 	}
 	complete := pe.run(func(pt Pt) bool { return pt == target }, init, func(pt Pt, env map[string]absVal, dec []decision) {
 		cv := pe.eval(codeE, env)
@@ -500,7 +518,9 @@ func c16JudgePair(c *Check, rule string, pk *packages.Package, key string, pos t
 		if enchE != nil {
 			evv = pe.eval(enchE, env)
 		}
-		r := res{cv, evv}
+		w := worldOf(dec)
+		worlds[w] = true
+		r := res{cv, evv, w}
 		if seen[r] {
 			return
 		}
@@ -514,8 +534,8 @@ func c16JudgePair(c *Check, rule string, pk *packages.Package, key string, pos t
 				ok, msg = ok2, msg2
 			}
 		}
-		if !ok && bad == "" {
-			bad = msg
+		if !ok && badIn[w] == "" {
+			badIn[w] = msg
 		}
 	})
 	if !complete {
@@ -526,7 +546,22 @@ func c16JudgePair(c *Check, rule string, pk *packages.Package, key string, pos t
 		c.Fail(rule, key, pos, "undecided: no path reaches the literal")
 		return
 	}
-	c.Hold(rule, key, pos, bad == "", bad)
+	if len(worlds) == 1 && worlds[""] {
+		c.Hold(rule, key, pos, badIn[""] == "", badIn[""])
+		return
+	}
+	var ws []string
+	for w := range worlds {
+		ws = append(ws, w)
+	}
+	sort.Strings(ws)
+	for _, w := range ws {
+		k := key
+		if w != "" {
+			k += "@case:" + w
+		}
+		c.Hold(rule, k, pos, badIn[w] == "", badIn[w])
+	}
 }
 
 func envLookup(info *types.Info, trk func(ast.Expr) (string, bool), env map[string]absVal) func(ast.Expr) (absVal, bool) {
